@@ -95,7 +95,7 @@ theorem subrequestsOK_of (h : Fam c A B T q fs) (hs : SvcFam c A B T q fs SA SB)
       occOn (schemaAt svcs B) T f.1 rq = if f.2.2 then 1 else 0 := by
     intro f hf rq hrq
     obtain ⟨i, -, rfl⟩ := mem_lookupRqs hrq
-    rw [hB]; exact occOn_lookup h hs _ f hf
+    rw [hB]; exact occOn_lookup h.toFamT hs.toSvcB _ f hf
   have hsel : ∀ f ∈ fs, selecting svcs T f.1 (callsExplicit c A B T q ty fs thn lookups)
       = if f.2.2 then (lookupRqs c B T q fs lookups).map (fun rq => (B, rq)) else [(A, rootRq c A q ty fs thn)] := by
     intro f hf
@@ -125,7 +125,7 @@ theorem subrequestsOK_of (h : Fam c A B T q fs) (hs : SvcFam c A B T q fs SA SB)
         subst hcl
         obtain ⟨i, hi, rfl⟩ := mem_lookupRqs hrq
         rw [hB]
-        exact validFor_lookup h hs (hBne (List.ne_nil_of_mem hi)) _
+        exact validFor_lookup h.toFamT hs.toSvcB (hBne (List.ne_nil_of_mem hi)) _
   · simp [rootRq, rqOf, header_root, h.hkind]
   · intro rq hrq
     obtain ⟨i, -, rfl⟩ := mem_lookupRqs hrq
